@@ -686,8 +686,8 @@ def check_fs_args(ck, attr, skip=("validate_absolute_path",)):
                         else:
                             kinds.add(provenance(cfi, _resolve_local(cfi, x, a), depth + 1))
             if not kinds:
-                return "entry"
-            for k in ("raw", "unknown", "entry", "app", "validator", "validated"):
+                return "inlined" if mname in getattr(repo, "inlined_helpers", ()) else "entry"
+            for k in ("raw", "unknown", "entry", "app", "validator", "inlined", "validated"):
                 if k in kinds:
                     return k
         if isinstance(e, ast.Call) and self_call_name(e) == "get_absolute_path":
@@ -709,7 +709,7 @@ def check_fs_args(ck, attr, skip=("validate_absolute_path",)):
                 k = provenance(fi, _resolve_local(fi, x, x.args[0]))
                 if k in ("unknown", "entry") and not (k == "entry" and mname in ("get_content", "get_content_version", "_get_cached_version")):
                     raise AnalysisError("%s: cannot establish where the argument of %s comes from" % (fi.qualname, q.unparse(x)))
-                ck.ob("C26.fs-args", fi, x, k in ("validated", "app", "entry", "validator"), "%s operates on the validated path (%s) or an application-side path - weakest provenance over all in-class callers: %s" % (q.dotted(x.func), attr, k))
+                ck.ob("C26.fs-args", fi, x, k in ("validated", "app", "entry", "validator", "inlined"), "%s operates on the validated path (%s) or an application-side path - weakest provenance over all in-class callers: %s" % (q.dotted(x.func), attr, k))
     ck.floor("C26.fs-args", n, 2, "filesystem primitives in StaticFileHandler")
 
 
@@ -723,6 +723,21 @@ def _resolve_local(fi, at_ast, e):
             if d is not None and d.kind == "assign" and d.value is not None:
                 return d.value
     return e
+
+
+VOCABULARY = {"_stat", "_get_cached_version", "_static_hashes", "_lock"}
+INGREDIENTS = {"abspath", "realpath", "normpath", "join", "startswith", "sep", "isdir", "isfile", "exists", "stat", "open", "absolute_path", "validate_absolute_path", "get_absolute_path",
+               "root", "default_filename", "relpath", "commonpath", "commonprefix", "redirect"}
+
+
+def normalise(ck):
+    """Inline private helpers split off get / validate_absolute_path / get_absolute_path."""
+    from ..x_secinline import inlined, mentions_any
+
+    roots = [SF + "." + m for m in ("get", "validate_absolute_path", "get_absolute_path", "head")]
+    ck.repo = inlined(ck.repo, W, roots, lambda name, h: name in VOCABULARY, lambda h: mentions_any(h, INGREDIENTS))
+    for nm in getattr(ck.repo, "inlined_helpers", []):
+        ck.note("inlined private helper %s into its caller before analysis" % nm)
 
 
 # ---------------------------------------------------------------------------
@@ -740,6 +755,7 @@ def run(ck):
     ck.rule("C26.fs-args", "every filesystem primitive in StaticFileHandler operates on the validated path or on a parameter fed from it")
     ck.rule("C26.head", "head() delegates to get() for the same path")
 
+    normalise(ck)
     get = ck.func(W, SF + ".get")
     val = ck.func(W, SF + ".validate_absolute_path")
     joiner = ck.func(W, SF + ".get_absolute_path")
